@@ -64,6 +64,9 @@ def special_docs():
     res.append(("two_undefined_refs", 'JSIGHT 0.3\nTYPE @a\n{\n  "x": @nope1,\n  "y": @b,\n  "z": @nope2 | @b\n}\nTYPE @b\n{\n  "a": @a // {optional: true}\n}\n'))
     res.append(("two_undefined_refs_flat", 'JSIGHT 0.3\nTYPE @a\n{\n  "x": @nope1,\n  "z": @nope2\n}\nGET /x\n  200 @a\n'))
     res.append(("undefined_in_or", 'JSIGHT 0.3\nTYPE @a\n{\n  "z": @nope2 | @nope3\n}\nGET /x\n  200 @a\n'))
+    # examples built from regular expressions: the same bytes in every process
+    res.append(("regex_examples", 'JSIGHT 0.3\nTYPE @rx regex\n/[a-z]{8}[0-9]{4}/\nTYPE @ry regex\n/(cat|dog|bird)-[A-F]{3}/\nTYPE @o\n{\n  "r": @rx,\n  "s": @ry,\n'
+                '  "t": [@rx]\n}\nGET /x\n  200 @o\n  404 regex\n  /[0-9]{6}/\nPOST /y\n  Request\n  {\n    "q": @ry\n  }\n  200 any\n'))
     res.append(("or_types", 'JSIGHT 0.3\nTYPE @a\n{\n  "x": @b | @c | @d\n}\nTYPE @b\n1\nTYPE @c\n"s"\nTYPE @d\ntrue\nGET /x\n  200 @a\n'))
     return res
 
